@@ -264,11 +264,17 @@ func checkC03(c *Ctx) {
 	for _, sib := range siblings {
 		if fo := c.failover(sib); fo.Err == nil {
 			fo := fo
+			c.borrowKinds("C01", func() { c.c01Sibling(fo) }, "R03.1", sib+".Get:release-on-every-exit", []string{"R01.4", "R01.5"},
+				"missing-release", "leak", "double-release", "waiter-releases", "bg-release-key-from-caller-slice")
 			c.borrowKinds("C04", func() { c.c04Sibling(fo) }, "R03.1", sib+".Get:no-lock-left-behind", []string{"R04.1", "R04.4"},
-				"bg-release-key-from-caller-slice", "bg-uses-caller-key", "leak", "double-release", "waiter-releases")
+				"bg-release-key-from-caller-slice", "bg-uses-caller-key", "leak", "double-release", "waiter-releases", "missing-release")
 		}
 	}
 	c.c03ExpiryErrorTypes()
+	// the options of the documented table (SyncUpdate, SyncRead, FailHard, MaxStaleness, …) are the ones the user configured: the
+	// constructors complete zero fields only, they do not derive one option from another
+	c.configOverwritesIn("R03.1", "NewFailover", "FailoverConfig", nil)
+	c.configOverwritesIn("R03.1", "NewFailoverOf", "FailoverConfigOf", nil)
 }
 
 func (c *Ctx) c03Sibling(fo *FO) {
